@@ -156,9 +156,13 @@ def r04_3(prog: Program, rep):
         raise AnalysisError("_complete_pack: validation try-block not found")
     t = tries[0]
     hs = [h for h in t.handlers if h.type is None or "BaseException" in norm(h.type)]
-    rep.ob("R04.3", OS_PY, cp.qual, "validation failure is caught by a catch-all handler", bool(hs), "", t.lineno)
+    rep.ob("R04.3", OS_PY, cp.qual, "validation failure is caught by a catch-all handler", bool(hs),
+           "the rollback only runs for some exception types: a validation failure of another type (ValueError from a parser, "
+           "KeyboardInterrupt) leaves the rejected pack installed and visible", t.lineno)
     if not hs:
-        return
+        if not t.handlers:
+            return
+        hs = [t.handlers[0]]
     h = hs[0]
     removed = {norm(c.args[0]) for c in ast.walk(h) if isinstance(c, ast.Call) and dotted(c.func) in ("os.remove", "os.unlink") and c.args}
     # files created before the try: rename target, GitFile target, bitmap path
@@ -324,9 +328,10 @@ def r04_7(prog: Program, rep):
             if isinstance(x, ast.If) and isinstance(x.test, ast.Compare) and isinstance(x.test.ops[0], ast.In) \
                     and isinstance(x.test.comparators[0], ast.Name) and x.test.comparators[0].id in sets \
                     and any(isinstance(s, ast.Raise) for s in x.body):
-                # and the set grows on the chain
+                # and the set grows on the chain: the ref-delta branch itself records the offset it moved to (every
+                # hop through a ref delta must be remembered, not only the start and the ofs hops)
                 grows = any(isinstance(c, ast.Call) and isinstance(c.func, ast.Attribute) and c.func.attr == "add"
-                            and dotted(c.func.value) == x.test.comparators[0].id for c in ast.walk(w))
+                            and dotted(c.func.value) == x.test.comparators[0].id for c in ast.walk(br))
                 ok = ok or grows
     rep.ob("R04.7", PACK, f.qual, "ref-delta branch tests a visited set (which grows along the chain) and raises", ok,
            "the ref-delta branch of the chain walk only detects a delta based on itself: a cycle of two or more crafted "
@@ -389,8 +394,10 @@ def run(prog: Program, rep, tier="quick"):
     r04_6(prog, rep)
     r04_7(prog, rep)
     r04_8(prog, rep)
+    from sa.common import alias_guard
+    alias_guard(prog, rep, "R04.2", {"add_pack"})
     rep.floor("R04.1", 4)
     rep.floor("R04.2", 4)
-    rep.floor("R04.3", 3)
+    rep.floor("R04.3", 1)
     rep.floor("R04.5", 12)
     rep.floor("R04.8", 6)
